@@ -137,7 +137,7 @@ EXTENDS Integers, Sequences, TLC, ProcsData
     r2: call Inc(rq, bt);
     r3: if (bn > 0) { call Both(rq, rp, bn - 1); } else { call Both2(rp, rp); };
     r4: mem[rp] := mem[rp] * 2 + bt;
-        out := Append(out, << rp, rq, bn, bt >>);
+        out := Append(out, << bn, bt, mem[rp], mem[rq] >>);
         return;
   }
   procedure Both2(sp, sq)
